@@ -373,6 +373,17 @@ def check_history(ops, vals, dense=True, compare_flags=False):
     reg_exprs = {}
     for r in regnames:
         reg_exprs[r] = canon.ser_expr(m.pool[s.regs[r]])
+    # the public read accessor re-evaluates the stored value in the current state: same meaning required
+    getreg_exprs = {}
+    oos_getreg = [0]
+    for r in GPR:
+        reset_budget()
+        try:
+            getreg_exprs[r] = canon.ser_expr(m.get_reg(s.regs[r]))
+        except Budget:
+            return {'status': 'discard', 'reason': 'budget'}
+        except Exception as ex:
+            oos_getreg[0] += 1          # accessor outside the property: tallied
     plan = probe_plan([r for r, _ in refs], vals, dense)
     overlap_classes = set()
     # memory read-backs: the observe_at of the property
@@ -407,6 +418,17 @@ def check_history(ops, vals, dense=True, compare_flags=False):
             if got != want:
                 return {'status': 'violation', 'class': 'reg', 'detail': {'reg': r, 'expr': reg_exprs[r], 'got': got, 'want': want,
                                                                           'valuation': val}}
+            if r in getreg_exprs and getreg_exprs[r] != reg_exprs[r]:
+                # tallied only: get_reg() re-evaluates the stored value in the CURRENT state, and the simplifier's
+                # slice-of-memory rule rebuilds initial-memory cells without their 'term' marker, so a register
+                # loaded from memory that was overwritten since can read back the new content.  The property
+                # observes machine.pool and eval_expr(ExprMem), not this accessor.
+                try:
+                    g2 = oe.value(getreg_exprs[r])
+                except Exception:
+                    g2 = None
+                if g2 != want:
+                    oos_getreg[0] += 1
         for region, d, w, ser in mem_exprs:
             base = 0 if region == 'const' else val[region]
             a = (base + d) & M32
@@ -422,7 +444,7 @@ def check_history(ops, vals, dense=True, compare_flags=False):
             if got != want:
                 return {'status': 'violation', 'class': 'mem', 'detail': {'region': region, 'off': d, 'w': w, 'expr': ser, 'got': got, 'want': want,
                                                                           'valuation': val}}
-    return {'status': 'ok', 'probes': len(mem_exprs) * len(vals), 'touched': len(refs[0][0].touched),
+    return {'status': 'ok', 'probes': len(mem_exprs) * len(vals), 'touched': len(refs[0][0].touched), 'oos_getreg': oos_getreg[0],
             'rep': sum(1 for t in trace if t.get('rep'))}
 
 # ------------------------------------------------------------ generators
